@@ -97,6 +97,63 @@ func TestFanOut(t *testing.T) {
 	})
 }
 
+// TestExhaustiveHistories: every sequence (up to a bounded length) of handle/update/delete over a small pool of
+// patterns that split and merge each other's nodes (static prefixes, parameter, catch-alls, hostnames).
+func TestExhaustiveHistories(t *testing.T) {
+	pool := []string{"/a", "/ab", "/a/b", "/a/{p}", "/a/*{c}", "/a/*{c}/x", "a.b/x", "{h}.b/x", "a.b/"}
+	if extra := os.Getenv("C02_EXH_EXTRA"); extra != "" {
+		pool = append(pool, strings.Split(extra, ",")...)
+	}
+	maxLen := stats.EnvInt("C02_EXH_LEN", 3)
+	shard, shards := stats.EnvInt("VERIF_SHARD", 0), stats.EnvInt("VERIF_SHARDS", 1)
+	var ops []hist.Op
+	for _, p := range pool {
+		for _, k := range []string{"handle", "delete", "update"} {
+			ops = append(ops, hist.Op{Kind: k, Method: "GET", Pattern: p})
+		}
+	}
+	ops = append(ops, hist.Op{Kind: "handle", Method: "FOO", Pattern: "/a"}, hist.Op{Kind: "delete", Method: "FOO", Pattern: "/a"}, hist.Op{Kind: "truncate", Methods: []string{"GET"}})
+	stats.Note("exhaustive_histories", fmt.Sprintf("every sequence of length <= %d over %d operations (handle/update/delete on %d patterns, a custom-method pair, truncate)", maxLen, len(ops), len(pool)))
+	n := 0
+	var rec func(cur []hist.Op)
+	rec = func(cur []hist.Op) {
+		if stats.Failed() {
+			return
+		}
+		if len(cur) > 0 {
+			n++
+			if n%shards == shard {
+				e, err := hist.New(hist.Cfg{Observers: true, Methods: []string{"GET", "FOO"}})
+				if err != nil {
+					t.Fatal(err)
+				}
+				h := &hist.History{Cfg: e.Cfg, Ops: cur}
+				for _, op := range cur {
+					if err := e.Step(op); err != nil {
+						h.Ops = append([]hist.Op(nil), cur...)
+						stats.Fail("history", h, "%v", err)
+						t.Errorf("%v", err)
+						break
+					}
+				}
+				e.Close()
+				stats.EvalN(len(cur))
+				stats.NonTrivial("exh|" + canon(h))
+				if n%3000 == 1 {
+					stats.Sample(&hist.History{Cfg: e.Cfg, Ops: append([]hist.Op(nil), cur...)})
+				}
+			}
+		}
+		if len(cur) == maxLen {
+			return
+		}
+		for _, op := range ops {
+			rec(append(cur[:len(cur):len(cur)], op))
+		}
+	}
+	rec(nil)
+}
+
 func TestNote(t *testing.T) {
 	stats.Note("model", fmt.Sprintf("sequential map keyed by (method, pattern) with the documented conflict rule; observers compared after every step: Len, Has, Route, Iter.All/Methods/Prefix/Routes on the router and on the open transaction"))
 }
